@@ -87,6 +87,14 @@ def probes_for(ex, hist, mstates):
     P.append(["mutate", [["z", ["case", [[b, x]], s]]]])  # incompatible branches
     P.append(["mutate", [["z", ["cast", b, "str"]]]])  # cast outside the table
     P.append(["mutate", [["z", ["case", [[x, lit(1)]], lit(0)]]]])  # non-boolean when
+    # ... with the condition given by name (resolved only inside the verb) while the branch values are typed
+    P.append(["mutate", [["z", ["case", [[Cn("x"), lit(1)]], lit(0)]]]])
+    P.append(["mutate", [["z", ["case", [[Cn("s"), x]], g]]]])
+    P.append(["mutate", [["z", ["add", ["case", [[Cn("x"), lit(1)]], lit(0)], lit(1)]]]])
+    P.append(["filter", [["eq", ["case", [[Cn("k"), lit(1)]], lit(0)], lit(1)]]])
+    P.append(["summarize", [["a", ["sum", x, {"filter": [Cn("k")]}]]]])
+    P.append(["mutate", [["z", ["max", x, {"filter": [Cn("s")]}]]]])
+    P.append(["arrange", [["case", [[Cn("x"), k]], g]]])
     # R2 non-boolean filter
     P += [["filter", [["add", x, lit(1)]]], ["filter", [s]], ["filter", [Cn("x")]], ["filter", [b, ["neg", x]]]]
     # R3 non-boolean on / R6 window or aggregate in on
